@@ -65,6 +65,11 @@ SHAPES = [
     ("callres:a", "lower(r.s).upper()", True), ("callres:b", "upper(r.c)()", True),
     ("callres:c", "str(r.s).strip()", True), ("callres:d", "r.c()()", True),
     ("callres:e", "net.ipaddress('1.2.3.4').val()", True),
+    # a method named like a whitelisted helper, with the helper's arity (a resolver that drops the receiver would
+    # silently call the helper instead of refusing)
+    ("callres:helper_named", "lower(r.s).upper(r.t)", True), ("const:helper_named", "'abc'.lower('X')", True),
+    ("attr:helper_named", "r.c.upper('x')", True), ("attr:helper_named2", "r.s.name(r)", True),
+    ("attr:helper_named3", "r.c.d.has_field(r, 's')", True), ("subscript:helper_named", "r.l[0].upper('x')", True),
     # --- constants
     ("const:str", "'abc'.upper()", True), ("const:int", "(1).bit_length()", True), ("const:bytes", "b'x'.hex()", True),
     ("const:none", "None()", True), ("const:strcall", "'abc'()", True), ("const:format", "'{}'.format(r.c)", True),
